@@ -48,7 +48,7 @@ def cover_sets(ctx, scope, rot):
     res = ctx.tlc_expect_ok(['system'], 'ConfigCover.tla', 'Cover_gen.cfg', workers=2, timeout=900,
                             extra_files={'Cover_gen.cfg': cfg})
     out = {}
-    for name in ('quick', 'cover', 'full', 'boundary_quick', 'boundary_all', 'sharedcu_quick', 'sharedcu_all'):
+    for name in ('quick', 'cover', 'full', 'boundary_quick', 'boundary_all', 'sharedcu_quick', 'sharedcu_all', 'parallel_quick', 'parallel_all'):
         path = os.path.join(res.dir, name + '.ndjson')
         if not os.path.exists(path):
             raise vlib.Infra('ConfigCover did not export %s' % name)
@@ -93,7 +93,8 @@ def names_of(ctx, w):
 def case_key(c):
     k = c['c']
     return '%s[%s] %s/%s/%s n=%d %s umem=%d%s' % (c['w'], ','.join(str(x) for x in c['p']), k['mode'], k['gpu'], k['arch'],
-                                                    k['n'], k['dist'], k['umem'], (' knobs ' + c['knobs']) if c.get('knobs') else '')
+                                                    k['n'], k['dist'], k['umem'], ((' knobs ' + c['knobs']) if c.get('knobs') else '') +
+                                                    ((' parallel-engine #%s' % c.get('rep', 1)) if c.get('parallel') else ''))
 
 
 def case_args(ctx, c, verify=True):
@@ -114,6 +115,8 @@ def case_args(ctx, c, verify=True):
         argv += ['-use-unified-memory']
     if c.get('knobs'):
         argv += ['-knobs', c['knobs']]
+    if c.get('parallel'):
+        argv += ['-parallel']
     if verify and c['w'] not in NO_VERIFY_FLAG:
         argv += ['-verify']
     return argv
@@ -277,6 +280,8 @@ def signature(res, kind, detail):
     k = c['c']
     sig = {'kind': kind, 'bench': c['w'], 'mode': k['mode'], 'arch': k['arch'],
            'multi_gpu': 'no' if k['n'] == 1 else k['dist'], 'umem': k['umem'], 'detail': norm_msg(detail)}
+    if c.get('parallel'):
+        sig['parallel_engine'] = True
     if kind == 'crash':
         sig['where'] = panic_site(res['log'])
     if kind == 'hang':
@@ -310,7 +315,8 @@ def judge(ctx, drv, results, verify=True, extra=(), prop='C01'):
             continue
         kind, detail = f
         again = res
-        if res['case']['w'] not in HOST_CONCURRENT:
+        # a failure on the parallel engine (or of a host-concurrent sample) is a race: one observation is the evidence
+        if res['case']['w'] not in HOST_CONCURRENT and not res['case'].get('parallel'):
             again = run_case(ctx, drv, 'confirm%d' % i, res['case'], extra, verify)
             f2 = classify(again, verify)
             if f2 is None or f2[0] != kind:
@@ -571,6 +577,8 @@ def run(ctx, selftest=False):
     # unified-device runs whose work-group count sits on a share boundary of distributeWGToGPUs (derived in Config.tla from
     # the CU count of each platform): the counts at which a GPU gets its last / exactly one / no work-group
     cases += sets['boundary_all'] if thorough else sets['boundary_quick']
+    # emulation on the parallel engine: local-memory workloads with several work-groups, repeated
+    cases += sets['parallel_all'] if thorough else sets['parallel_quick']
     cases += sampled_cases(ctx, 'acceptance', 150 if thorough else 14)
     # cheap first is irrelevant; run timing cases first so that the long ones do not form the tail
     cases.sort(key=lambda c: (0 if c['c']['mode'] == 'timing' else 1, -c['c']['n']))
@@ -579,14 +587,15 @@ def run(ctx, selftest=False):
     results = run_many(ctx, drv, cases, extra=['-sys-trace', 'sys.ndjson'])
     nfail = judge(ctx, drv, results, extra=['-sys-trace', 'sys.ndjson'])
     ok = [r for r in results if classify_quiet(r) is None]
+    serial_ok = [r for r in ok if not r['case'].get('parallel')]   # hook order is not an order of occurrence on the parallel engine
     ctx.log('%d runs, %d failing, %d passing' % (len(results), nfail, len(ok)))
 
     design.result()
     design_pool.shutdown()
 
     # system-level trace validation of a sample of the passing runs (timing and multi-GPU first)
-    ok.sort(key=lambda r: (0 if r['case']['c']['mode'] == 'timing' else 1, -r['case']['c']['n'], case_key(r['case'])))
-    path, n, chosen = validate_sys_traces(ctx, ok, 60000 if thorough else 12000, 400 if thorough else 40, 'c01')
+    serial_ok.sort(key=lambda r: (0 if r['case']['c']['mode'] == 'timing' else 1, -r['case']['c']['n'], case_key(r['case'])))
+    path, n, chosen = validate_sys_traces(ctx, serial_ok, 60000 if thorough else 12000, 400 if thorough else 40, 'c01')
     ctx.log('system traces validated: %d runs' % n)
     common.selftest_binding(ctx, TSPEC, path, corruptions())
 
@@ -605,7 +614,8 @@ def run(ctx, selftest=False):
                     'timing_runs': sum(1 for r in results if r['case']['c']['mode'] == 'timing'),
                     'multi_gpu_runs': sum(1 for r in results if r['case']['c']['n'] > 1),
                     'sampled_runs': sum(1 for r in results if r['case'].get('sampled')),
-                    'unified_share_boundary_runs': sum(1 for r in results if r['case'].get('boundary'))})
+                    'unified_share_boundary_runs': sum(1 for r in results if r['case'].get('boundary')),
+                    'parallel_engine_runs': sum(1 for r in results if r['case'].get('parallel'))})
     ctx.assumptions += [
         'deciding oracle is each workload\'s own Verify() (host reference); fft\'s Verify compares two host copies and cannot fail, '
         'simpleconvolution/stencil2d use constant inputs, matrixmultiplication checks row 0 only (weak references are the workloads\' own)',
